@@ -366,3 +366,84 @@ for _k in CACHED_HELPER_CALLERS:
         if "C10" not in _REG[_k].props:
             _REG[_k].props.append("C10")
         _REG[_k].only["C10"] = ["frame."]
+
+
+# ---------------------------------------------------------------------------
+# alignment tasks only READ the model they share: the cached (pre-transformed) template and mask are never updated in
+# place by the per-molecule optimisation of any concrete model
+class TCachedEntry(TSpec):
+    """the cached template (index 0) / mask (index 1) of the model built for `self` -- the very array objects that every
+    task of one loader.align call receives"""
+
+    def __init__(self, index):
+        self.index = index
+
+    def fresh(self, name, path):
+        model = path._c10_model
+        entry = list(model.attrs["_template_mask_cache"].attrs["_dict"].values())[0]
+        return entry[self.index]
+
+    def src(self, name, model):
+        return "None"
+
+
+class _TSharedModelCase(_TAlignModelCase):
+    def fresh(self, name, path):
+        m = _TAlignModelCase.fresh(self, name, path)
+        path._c10_model = m
+        for arr in list(m.attrs["_template_mask_cache"].attrs["_dict"].values())[0]:
+            arr.frozen = True                      # shared between tasks: an in-place update is a frame violation
+        path.interp.cached_calls.add("<shared> TemplateMaskCache entry (pre-transformed template, mask)")
+        return m
+
+
+class TSharedModel(TAlignModel):
+    def cases(self):
+        return [_TSharedModelCase(k, self.multi) for k in self.kinds]
+
+
+_REPLAY_SHARED = '''
+import numpy as np
+from scipy.spatial.transform import Rotation
+import acryo.alignment as _alm
+kind = %r
+rng = np.random.default_rng(3)
+shape = (12, 12, 12)
+zz, yy, xx = np.indices(shape)
+tmpl = (np.exp(-((zz - 5) ** 2 + (yy - 6) ** 2 + (xx - 4) ** 2) / 6.0) + 0.6 * np.exp(-((zz - 7) ** 2 + (yy - 3) ** 2 + (xx - 8) ** 2) / 4.0)).astype(np.float32)
+imgs = [(tmpl + 0.3 * rng.normal(size=shape)).astype(np.float32) for _ in range(4)]
+quats = Rotation.random(4, random_state=5).as_quat()
+def run(order):
+    model = getattr(_alm, kind)(tmpl, tilt=(-60, 60))
+    out = {}
+    for i in order:
+        r = model.align(imgs[i], (2.0, 2.0, 2.0), quaternion=quats[i], pos=np.zeros(3))
+        out[i] = (np.asarray(r.shift, dtype=float), float(r.score))
+    return out
+a, b = run([0, 1, 2, 3]), run([3, 2, 1, 0])
+ok = all(np.allclose(a[i][0], b[i][0]) and abs(a[i][1] - b[i][1]) < 1e-6 for i in range(4))
+for i in range(4):
+    print("molecule", i, "forward order:", np.round(a[i][0], 3), round(a[i][1], 5), "| reversed order:", np.round(b[i][0], 3), round(b[i][1], 5))
+print("clause holds natively (results do not depend on the order in which tasks use the shared model):", ok)
+print("CONFIRMED" if not ok else "NOT-CONFIRMED"); sys.exit(1 if not ok else 0)
+'''
+
+
+def _replay_shared(ob_name, meta, model):
+    kind = "ZNCCAlignment"
+    for k in _MODELS:
+        if f"self={k}]" in ob_name or f"self={k}," in ob_name:
+            kind = k
+    return _REPLAY_SHARED % kind
+
+
+@contract("acryo.alignment._base:BaseAlignmentModel._optimize_single", props=["C10"])
+class optimize_single_shared:
+    """one alignment task of a single-template model: the sub-volume is masked, pre-transformed and optimised against
+    the cached template; the cached arrays are left untouched (frame obligation frame.cached_results_read_only)"""
+    params = dict(self=TSharedModel(), subvolume=_IMG, template=TCachedEntry(0), mask=TCachedEntry(1), max_shifts=_MS,
+                  quaternion=T.Arr(1, "real", shape=(4,)), pos=T.Arr(1, "real", shape=(3,)), backend=T.Backend())
+    requires = ["all(subvolume.shape[a] == self._template.shape[a] for a in range(3))"]
+    replay = staticmethod(_replay_shared)
+    only = {"C10": ["frame.", "ensures."]}
+    ensures = {"single_label": "result.label == 0"}
